@@ -115,7 +115,10 @@ func runBatcher(c BCase) bResult {
 		fedAt[id] = time.Now()
 		mu.Unlock()
 		id++
-		in <- m
+		select {
+		case in <- m:
+		case <-time.After(2 * time.Second): // the batcher stopped taking input: the bound check will say so
+		}
 	}
 	start := time.Now()
 	if c.Kind == "idle-key-beside-busy-key" {
